@@ -253,6 +253,9 @@ LAYOUT_SCHEMAS = [
     # an origin given by a label that is defined further down: rejecting the program is fine, placing the statements behind it at one
     # address in pass one and at another in pass two is not
     ("may-reject:org-forward-symbol", ".ORG FWD\nF1: defb 0xA1\n MV X, F1\nF2: defb 0xA4\n.ORG 0x300\nFWD: defb 0xA2\n", {"F1": 0xA1, "F2": 0xA4, "FWD": 0xA2}),
+    # a label standing alone on its line names the location reached so far (the end of the block above it), also when the next line
+    # moves the location with .ORG or SECTION
+    ("end-labels", ".ORG 0x100\nA1: defb 0xA1\n defb 0x11\nEND1:\n.ORG 0x200\nA2: defb 0xA2\nEND2:\nSECTION data\nD1: defb 0xA3\n", {"A1": 0xA1, "A2": 0xA2, "D1": 0xA3}),
     # a section name the assembler does not know: rejecting the program is fine, laying it out inconsistently is not
     ("may-reject:custom-section", "SECTION data\nD1: defb 0xA1\nSECTION bss\nB1: defs 4\nSECTION extra\nX1: defb 0xA5\nX2: defb 0xA6\nSECTION code\nC1: defb 0xA3\n", {"D1": 0xA1, "X1": 0xA5, "X2": 0xA6, "C1": 0xA3}),
 ]
@@ -286,6 +289,11 @@ def layout_witness(job: tuple) -> list[dict]:
         b1 = r["symbols"].get("B1")
         if any(isinstance(a, int) and b1 is not None and b1 <= a < b1 + 6 for a, _b in r["segments"]):
             out.append({"schema": name, "verdict": "layout", "detail": "a .bss statement emitted bytes"})
+    if name == "end-labels":
+        for end, base, size in (("END1", "A1", 2), ("END2", "A2", 1)):
+            e_, b_ = r["symbols"].get(end), r["symbols"].get(base)
+            if e_ is None or b_ is None or e_ != b_ + size:
+                out.append({"schema": name, "verdict": "layout", "detail": f"label {end} stands alone after the {size} byte(s) at {base}={b_ if b_ is None else hex(b_)} but is bound to {e_ if e_ is None else hex(e_)} (the location of the *next* block): every reference to it encodes the wrong address"})
     if name == "org-symbol":
         mv = [s for s in r["segments"] if s[1] and s[1][0].is_const() and s[1][0].value() == 0x0C]
         l0 = r["symbols"].get("L0")
